@@ -2098,6 +2098,9 @@ static WBXMLError parse_attr_value(WBXMLParser  *parser,
     }
 
     *result = wbxml_buffer_sta_create_from_cstr(parser->langTable->attrValueTable[index].xmlName);
+    if (*result == NULL) {
+        return WBXML_ERROR_NOT_ENOUGH_MEMORY;
+    }
 
     return WBXML_OK;
 }
